@@ -133,7 +133,7 @@ def templates(cmd):
 SPECIALS = ["a^b", "a_b", "x>=y", "x<=y", "<=>=", "a\nb", "a\n", "\nb", "\n", "a\n\nb", "x\n ", "\\pagenumber", "\\totalpage", "\\pagefield", "Page \\pagenumber of \\pagefield",
             "\\leq", "\\geq x", "_\\alpha", "^\\beta_\\gamma", "a>=\\alpha", "x^", "_", "^", ">=", "<=", "=>", "=<", "a>b<c", "\\pagenumberx",
             "\\totalpages", "a\\\\b".replace("\\\\", "\\zqa "), "\\sqrt[3]", "\\sqrt[4]x", "\\|", "\\:", "\\zqfoo", "\\zqfoo{a b}", "\\Alpha \\alpha",
-            "\\mathbb {R}", "\\mathbb{R}x", "\\mathbb{RR}", "\\mathbb{r}", "\\mathcal{L}(\\theta)", "\\mathbb{\\Gamma}", "\\alpha{}\\beta", "50\\% \\pm 2"]
+            "caf\u00e9 >= 5", "\u00e9^2_\u00fc", "\u2192 \\alpha \u4e2d", "\\alpha\u00e9", "\U0001d6fc\\beta", "\\mathbb {R}", "\\mathbb{R}x", "\\mathbb{RR}", "\\mathbb{r}", "\\mathcal{L}(\\theta)", "\\mathbb{\\Gamma}", "\\alpha{}\\beta", "50\\% \\pm 2"]
 
 
 def enumerate_cases(tier):
@@ -166,6 +166,8 @@ def _text(draw):
         st.sampled_from(CMDS), st.sampled_from(CMDS), st.sampled_from(BRACED),
         st.sampled_from(["^", "_", ">=", "<=", "\\pagenumber", "\\totalpage", "\\pagefield", "\\zqx", "\\zq{b c}", "{x}", ">", "<", "="]),
         st.text(alphabet="abAB", min_size=1, max_size=2),
+        # "all other characters stay unchanged": literal non-ASCII characters (escaped on output, read back as themselves)
+        st.sampled_from(["\u00e9", "\u00df", "\u2192", "\u4e2d", "\U0001d6fc", " \u00b5g", "na\u00efve"]),
     ), min_size=1, max_size=6))
     return "".join(parts)
 
